@@ -70,6 +70,8 @@ def main():
     cands += K.k_input_member(R, 'struct', 0 if tier == 'quick' else 1)
     cands += K.k_input_member(R, 'oneof', 0 if tier == 'quick' else 1)
     cands = [c for c in cands if c['prop'] == 'C11']
+    # enum values are a name position too: the enum-definition kernel (see C10) with unconstrained value names
+    enum_cands = [c for nv in ((1, 2) if tier == 'quick' else (1, 2, 3)) for c in K.k_enum_definition(R, nv) if c['prop'] == 'C10']
     C = consumer.Consumer(sc)
     replayed = 0
     by_site = {}
@@ -108,6 +110,14 @@ def main():
         if not hit:
             out.inconc(f'{kernel}: solver counterexample for {cs[0]["what"]} ({cs[0].get("model") or cs[0].get("input")}) was not reproduced natively with {tried} concrete names '
                        '(the abstract case conversion may not be realisable)')
+    if enum_cands:
+        import abstract_common as AC
+        ok, desc, rp = AC.confirm_enum_literals(C, enum_cands[0]['model'])
+        replayed += 1
+        if ok is False:
+            out.violation('enum-value', desc, rp)
+        else:
+            out.inconc(f"enum-value counterexample {enum_cands[0]['model']} did not reproduce natively")
     for w in R.inconclusive:
         out.inconc(w)
     cross = R.cross_check(limit=4 if tier == 'quick' else 20)
@@ -126,6 +136,11 @@ def main():
 
 def replay(path):
     p = json.load(open(path))
+    if p.get('kind') == 'enum-literals':
+        import abstract_common as AC
+        ok, desc, _ = AC.confirm_enum_literals(consumer.Consumer(vc.scratch(PROP + 'r')), p['model'])
+        print(desc)
+        return 1 if ok is False else 0
     sc = vc.scratch(PROP + 'r')
     ok, desc, _s, _q = confirm(consumer.Consumer(sc), p['site'], p['name'])
     print(desc)
